@@ -110,11 +110,31 @@ func (d *Delegation) Plan(c *Ctx) []hist.TxSpec {
 		undel(us[1], OLT(40), "undelegate")
 		return out
 	case 4:
+		// a withdrawal of nothing by the delegator whose address sorts first, in front of the real ones of the block
+		{
+			ds := []*world.Account{us[0], us[1], us[2], us[3]}
+			sort.Slice(ds, func(i, j int) bool { return ds[i].Addr.String() < ds[j].Addr.String() })
+			wd(ds[0], "0", "withdraw no rewards (amount 0) in the block of other delegators' withdrawals")
+			for _, u := range ds[1:] {
+				if u != us[0] {
+					if b := DelegRewardBalance(c.S, u); b.Sign() > 0 {
+						if part := new(big.Int).Div(b, big.NewInt(5)); part.Sign() > 0 {
+							wd(u, part.String(), "withdraw a fifth of the accrued rewards")
+						}
+					}
+				}
+			}
+		}
 		if b := DelegRewardBalance(c.S, us[0]); b.Sign() > 0 {
 			half := new(big.Int).Div(b, big.NewInt(2))
 			if half.Sign() > 0 {
 				wd(us[0], half.String(), "withdraw half the accrued rewards")
 			}
+		}
+		// ... and a reinvestment of more than has accrued, and one by somebody who has no rewards at all
+		if b := DelegRewardBalance(c.S, us[2]); true {
+			ri(us[2], new(big.Int).Add(b, big.NewInt(1000000)).String(), "reinvest more than the accrued rewards (must fail)")
+			ri(us[5%len(us)], "777", "reinvest by an account without rewards (must fail)")
 		}
 		if b := DelegRewardBalance(c.S, us[1]); b.Sign() > 0 {
 			ri(us[1], new(big.Int).Div(b, big.NewInt(3)).String(), "reinvest a third of the accrued rewards")
